@@ -180,9 +180,20 @@ int main() {
     verif::fill_inputs2(A, "a", 6, 6);
     const T4 C = computeDiluteScheme<Sym>(E0, nu0, f, Ei, nui, A);
     verif::outputs2("C", C, 6, 6);
+  }
+  {
+    // the isotropic stiffness tensor as the schemes build it from (E, nu), and from (K, G)
+    Unit u("IsoStiff_EN");
+    const Sym E0 = verif::scalar_input("E0", 3.), nu0 = verif::scalar_input("nu0", 0.25);
     T4 C0;
     computeIsotropicStiffnessTensorII<3u, StiffnessTensorAlterationCharacteristic::UNALTERED, Sym, Sym>(C0, E0, nu0);
-    verif::outputs2("M", C0, 6, 6);  // the matrix stiffness as the code builds it
+    verif::outputs2("C", C0, 6, 6);
+  }
+  {
+    Unit u("IsoStiff_KG");
+    const Sym K0 = verif::scalar_input("K0", 2.), G0 = verif::scalar_input("G0", 1.);
+    const T4 C0 = computeIsotropicStiffnessTensor<Sym>(KGModuli<Sym>(K0, G0));
+    verif::outputs2("C", C0, 6, 6);
   }
   {
     // tensorial Mori-Tanaka scheme, zero inclusion fraction (literal), arbitrary localisation tensor:
@@ -195,9 +206,6 @@ int main() {
     verif::fill_inputs2(A, "a", 6, 6);
     const T4 C = computeMoriTanakaScheme<Sym>(E0, nu0, Sym(0), Ei, nui, A);
     verif::outputs2("C", C, 6, 6);
-    T4 C0;
-    computeIsotropicStiffnessTensorII<3u, StiffnessTensorAlterationCharacteristic::UNALTERED, Sym, Sym>(C0, E0, nu0);
-    verif::outputs2("M", C0, 6, 6);
   }
   {
     // tensorial Mori-Tanaka scheme with the sphere localisation tensor (LU inversion: exact evaluation only)
